@@ -5,6 +5,7 @@ import (
 	"go/token"
 	"go/types"
 	"path/filepath"
+	"sort"
 	"strings"
 	"sync"
 
@@ -156,6 +157,18 @@ func newPkg(pkg *packages.Package, u *Universe) Package {
 				p.constants[x.Name()] = x
 			}
 		}
+	}
+
+	// TypesInfo.Defs is a map, and files are parsed concurrently:
+	// keep the methods of a type ordered by file name and offset
+	for _, methods := range p.methods {
+		sort.Slice(methods, func(i, j int) bool {
+			a, b := p.Package.Fset.Position(methods[i].Pos()), p.Package.Fset.Position(methods[j].Pos())
+			if a.Filename != b.Filename {
+				return a.Filename < b.Filename
+			}
+			return a.Offset < b.Offset
+		})
 	}
 
 	for i := range p.Package.Syntax {
